@@ -84,7 +84,7 @@ def _to_triplets(
         result = map(cal, _loop)
     else:
         with Pool(n_cpu) as p:
-            result = p.map(cal, _loop, chunksize=int(len(seqs) / n_cpu))
+            result = p.map(cal, _loop, chunksize=max(1, int(len(seqs) / n_cpu)))
     return _flatten_array(result)
 
 
